@@ -31,6 +31,8 @@ func ParseProgram(fsys fs.FS) (*ast.Tree, error) {
 	trees := map[string]*ast.Tree{}
 	main := ast.NewImport(nil, nil, "main", nil)
 	imports := []*ast.Import{main}
+	// importers maps an import declaration to the path of its file.
+	importers := map[*ast.Import]string{}
 
 	for len(imports) > 0 {
 
@@ -57,8 +59,7 @@ func ParseProgram(fsys fs.FS) (*ast.Tree, error) {
 			if last == 0 {
 				return nil, errors.New("cannot find main package")
 			}
-			path := imports[last-1].Tree.Path
-			return nil, &SyntaxError{path, *n.Position, fmt.Sprintf("cannot find package %q", n.Path)}
+			return nil, &SyntaxError{importers[n], *n.Position, fmt.Sprintf("cannot find package %q", n.Path)}
 		}
 		trees[n.Path] = n.Tree
 
@@ -100,6 +101,7 @@ func ParseProgram(fsys fs.FS) (*ast.Tree, error) {
 				continue
 			}
 			// Append the imports in reverse order.
+			importers[imp] = n.Tree.Path
 			if last == len(imports)-1 {
 				imports = append(imports, imp)
 			} else {
